@@ -116,13 +116,13 @@ class RoleChecker:
             r = m.find_method(target[1], target[2], '__init__')
             if r:
                 fn2 = r[2]
-                params = [a.arg for a in fn2.args.args][1:]
+                params = [a.arg for a in fn2.args.posonlyargs + fn2.args.args][1:]
                 kwonly = [a.arg for a in fn2.args.kwonlyargs]
                 return ('ctor', params, target[2].name, kwonly, fn2)
             fields = [n.target.id for n in target[2].body if isinstance(n, ast.AnnAssign) and isinstance(n.target, ast.Name)]
             return ('ctor', fields, target[2].name, [], None)
         fn2 = target[3]
-        params = [a.arg for a in fn2.args.args]
+        params = [a.arg for a in fn2.args.posonlyargs + fn2.args.args]
         if target[2] is not None and params and params[0] in ('self', 'cls'):
             params = params[1:]
         return ('func', params, fn2.name, [a.arg for a in fn2.args.kwonlyargs], fn2, target[1], target[2])
@@ -232,7 +232,7 @@ class RoleChecker:
                 continue
             fns = [(None, fn) for fn in d['funcs'].values()] + [(c, fn) for c in d['classes'].values() for fn in c.body if isinstance(fn, ast.FunctionDef)]
             for cls, fn in fns:
-                P = {a.arg for a in fn.args.args + fn.args.kwonlyargs} - {'self', 'cls'}
+                P = {a.arg for a in fn.args.posonlyargs + fn.args.args + fn.args.kwonlyargs} - {'self', 'cls'}
                 if len(P) < 2:
                     continue
                 for call in ast.walk(fn):
